@@ -37,9 +37,9 @@ fn to_blocks(p: &Program) -> Vec<Blk> {
             }
             Op::Append(i, s) => {
                 let l = lens[&i];
-                if s > 0 {
-                    out.push(Blk::Content { id: 40 + i as u64, data: p.bytes(i, l, s) });
-                }
+                // FORMAT.md puts no lower bound on the length of a FileContent block: the independent writer
+                // emits a zero-length one for an empty append (the library's writer drops it)
+                out.push(Blk::Content { id: 40 + i as u64, data: p.bytes(i, l, s) });
                 lens.insert(i, l + s as u64);
             }
             Op::End(i) => out.push(Blk::End { id: 40 + i as u64 }),
